@@ -10,7 +10,7 @@ from typing import Any, Sequence, Type, TypeVar, cast
 
 import numpy as np
 from numpy.typing import ArrayLike, NDArray
-from pydantic import BaseModel
+from pydantic import BaseModel, ConfigDict
 
 
 def normalize(array: NDArray[np.float64]) -> NDArray[np.float64]:
@@ -157,6 +157,11 @@ class ImmutableBaseModel(BaseModel):
     particularly useful when post-initialization validators are required, as
     these validators may not function properly with frozen Pydantic classes.
     """
+
+    # The validators modify the object that is being validated. An instance that
+    # is passed where a model is expected is therefore validated as a new
+    # object, instead of running the validators on the instance itself:
+    model_config = ConfigDict(revalidate_instances="always")
 
     _is_immutable: bool
 
